@@ -8,14 +8,15 @@ import (
 	"os"
 	"regexp"
 	"sort"
+	"strconv"
 	"strings"
 
 	"golang.org/x/tools/go/ssa"
 )
 
 func init() {
-	props["C10"] = &propDef{run: runC10, explanation: "Partial (thin): the list algebra itself (insert-or-replace keeping order, set union/difference, RFC 6902 semantics, id uniqueness) is value-level and NOT decided. Decided statically: (T1) the action tables agree — keys of patch.actionConfig = case constants of patchvalidator.Validate = case constants of the composer's dispatch = the eight patch.Action constants, each composer case calls its own handler and anything else is an error; (E1) handler write-sets — the key/service/also-known-as handlers write exactly their own member of the working document, replace builds a fresh document with exactly the two members taken from the replace document's publicKeys/services, ietf-json-patch returns the library output re-parsed; (P1) ApplyPatches is a left fold: deep copy of the document parameter, then one loop over the patches parameter in index order threading the result, the final result returned; (X2) sibling decision skeletons — for every append/update site in a handler's loop, which collection is iterated (document vs patch value), which collection the membership set is built from, the polarity of the membership test and what is appended; the three remove-handlers, the two keyed add-handlers and add-also-known-as must each match the documented skeleton (this catches an inverted keep condition, a dropped replace branch, a wrong source collection). Every handler loop visits every element: the only way out of a top-level loop body is an error return (a break drops the remaining entries). RFC 6902 operations are a left fold of the library's Apply over the document bytes (nothing else produces the running bytes, every successful exit returns them), and the applying function refuses only what the library refuses or a copy of a value into itself. Every list handler writes the rebuilt list back into the document on every accepting path. The copy guard lets an operation through exactly when from has at least as many tokens as path (three orderings). Replace-by-id searches every index of the list. Token unescape order of the copy guard; list accessors hand back every entry; (Document).Bytes reaches json.Marshal / Unmarshal only; document accessors read the member the composer writes; nothing else writes the running document of the fold."}
-	props["C14"] = &propDef{extraPkgs: []string{jsonPatchPkg}, run: runC14, explanation: "Partial (thin): document→patches→document and bytes round trips are value-level and NOT decided. Decided statically: (X1) each of the eight patch constructors stores ActionKey = its action and exactly one value under actionConfig[action]; (G1) FromBytes succeeds only across GetAction and GetValue of the decoded patch; GetValue looks up actionConfig[own action] and requires that member; GetAction admits only string-typed actions present in actionConfig; (T1) PatchesFromDocument maps publicKey / service / alsoKnownAs to their constructors and every other member to one combined ietf-json-patch 'add /<name>', visits members in sorted order, and succeeds only for documents without an id; (P1) Bytes() serialises the receiver itself; (J1) in the functions reachable from PatchesFromDocument no list separator is written under a loop-index test while the elements are written conditionally (hand-assembled JSON). (K2) every JSON decode in the patch and document packages is a plain encoding/json.Unmarshal; (X3) the json-patch fold and closed-refusal rules of C10. (K3) format strings in pkg/patch are constants; the validator's duplicate test for also-known-as URIs compares the URI's own text. Every constructor stores its value with a generic-JSON dynamic type. A constructor's value is built with decoding and conversion only; the composer stores patch entries' objects as they are. All of C10 and C13 run inside this check; GetAction hands back the action member as it stands."}
+	props["C10"] = &propDef{extraPkgs: []string{jsonPatchPkg}, run: runC10, explanation: "Partial (thin): the list algebra itself (insert-or-replace keeping order, set union/difference, RFC 6902 semantics, id uniqueness) is value-level and NOT decided. Decided statically: (T1) the action tables agree — keys of patch.actionConfig = case constants of patchvalidator.Validate = case constants of the composer's dispatch = the eight patch.Action constants, each composer case calls its own handler and anything else is an error; (E1) handler write-sets — the key/service/also-known-as handlers write exactly their own member of the working document, replace builds a fresh document with exactly the two members taken from the replace document's publicKeys/services, ietf-json-patch returns the library output re-parsed; (P1) ApplyPatches is a left fold: deep copy of the document parameter, then one loop over the patches parameter in index order threading the result, the final result returned; (X2) sibling decision skeletons — for every append/update site in a handler's loop, which collection is iterated (document vs patch value), which collection the membership set is built from, the polarity of the membership test and what is appended; the three remove-handlers, the two keyed add-handlers and add-also-known-as must each match the documented skeleton (this catches an inverted keep condition, a dropped replace branch, a wrong source collection). Every handler loop visits every element: the only way out of a top-level loop body is an error return (a break drops the remaining entries). RFC 6902 operations are a left fold of the library's Apply over the document bytes (nothing else produces the running bytes, every successful exit returns them), and the applying function refuses only what the library refuses or a copy of a value into itself. Every list handler writes the rebuilt list back into the document on every accepting path. The copy guard lets an operation through exactly when from has at least as many tokens as path (three orderings). Replace-by-id searches every index of the list. Token unescape order of the copy guard; list accessors hand back every entry; (Document).Bytes reaches json.Marshal / Unmarshal only; document accessors read the member the composer writes; nothing else writes the running document of the fold. The fold rule runs C19.G and C19.H (composer); entries of add / replace patches are stored as they are."}
+	props["C14"] = &propDef{extraPkgs: []string{jsonPatchPkg}, run: runC14, explanation: "Partial (thin): document→patches→document and bytes round trips are value-level and NOT decided. Decided statically: (X1) each of the eight patch constructors stores ActionKey = its action and exactly one value under actionConfig[action]; (G1) FromBytes succeeds only across GetAction and GetValue of the decoded patch; GetValue looks up actionConfig[own action] and requires that member; GetAction admits only string-typed actions present in actionConfig; (T1) PatchesFromDocument maps publicKey / service / alsoKnownAs to their constructors and every other member to one combined ietf-json-patch 'add /<name>', visits members in sorted order, and succeeds only for documents without an id; (P1) Bytes() serialises the receiver itself; (J1) in the functions reachable from PatchesFromDocument no list separator is written under a loop-index test while the elements are written conditionally (hand-assembled JSON). (K2) every JSON decode in the patch and document packages is a plain encoding/json.Unmarshal; (X3) the json-patch fold and closed-refusal rules of C10. (K3) format strings in pkg/patch are constants; the validator's duplicate test for also-known-as URIs compares the URI's own text. Every constructor stores its value with a generic-JSON dynamic type. A constructor's value is built with decoding and conversion only; the composer stores patch entries' objects as they are. All of C10 and C13 run inside this check; GetAction hands back the action member as it stands. The add-operation text is checked in concatenation form."}
 }
 
 func (c *Ctx) actionConsts() map[string]string {
@@ -276,7 +277,10 @@ func runC10(c *Ctx) {
 	c.Min("C10.P1", 10)
 
 	c.composerSkeletons("C10.X2", handlers)
-	c.Min("C10.X2", 12)
+	// "add installs the entry": the JSON-LD object of each patch entry goes into the rebuilt list as it is (a copying
+	// helper on the way can reshape it — drop a boolean, turn an empty list into null)
+	c.entriesStoredRule("C10.X2")
+	c.Min("C10.X2", 13)
 	c.Assume("the documented per-action skeletons are encoded in c10c14.go from the property statement; element-level semantics of the RFC 6902 library are outside the claim")
 	// the handlers read the document's keys and services through the document package's accessors: each reads the member
 	// the composer writes, and nothing else of the document
@@ -287,8 +291,8 @@ func runC14(c *Ctx) {
 	// "document -> patches -> document" goes through the composer (all of C10: what the handlers and the JSON-patch
 	// handler write), and "patches produced by the constructors pass validation" through the validators (all of C13:
 	// the limits are exactly the documented ones — an id of exactly 50 characters is valid)
-	runC10(c)
-	runC13(c)
+	c.apart(runC10)
+	c.apart(runC13)
 	acts := c.actionConsts()
 	cfg, cfgFn := c.actionValueKeys()
 	ctor := map[string]string{"replace": "NewReplacePatch", "ietf-json-patch": "NewJSONPatch", "add-public-keys": "NewAddPublicKeysPatch", "remove-public-keys": "NewRemovePublicKeysPatch", "add-services": "NewAddServiceEndpointsPatch", "remove-services": "NewRemoveServiceEndpointsPatch", "add-also-known-as": "NewAddAlsoKnownAs", "remove-also-known-as": "NewRemoveAlsoKnownAs"}
@@ -413,8 +417,49 @@ func runC14(c *Ctx) {
 		}
 		c.Check("C14.T1", "member->constructor", ok, pfd.Pos(), fmt.Sprintf("document member -> constructor table %v", got))
 		// other members: template add "/<name>"
-		tpl, _ := c.ConstVal("patch", "jsonPatchAddTemplate")
-		c.Check("C14.T1", "other-members:add-template", unquote(tpl) == `{ "op": "add", "path": "/%s", "value": %s }`, pfd.Pos(), "template "+tpl)
+		// (what the member loop appends to the list of operation texts: `{ "op": "add", "path": "/` ++ name ++ `", "value": `
+		// ++ the member's JSON ++ ` }`, white space aside — by format string or by concatenation, here or in a helper)
+		{
+			var forms []string
+			okT := true
+			forEachInstr(pfd, func(in ssa.Instruction) {
+				cl, isC := in.(*ssa.Call)
+				if !isC {
+					return
+				}
+				bi, isB := cl.Call.Value.(*ssa.Builtin)
+				if !isB || bi.Name() != "append" || types.TypeString(cl.Type().Underlying(), nil) != "[]string" {
+					return
+				}
+				els, okV := c.varargValues(cl.Call.Args[1])
+				if !okV {
+					return
+				}
+				for _, e := range els {
+					f := c.concatForm(e, nil)
+					parts := strings.Split(f, " ++ ")
+					if len(parts) != 5 || !strings.HasPrefix(parts[0], `"`) {
+						continue // (another list of texts: the sorted keys, …)
+					}
+					forms = append(forms, f)
+					lit := func(p string) string {
+						u, err := strconv.Unquote(p)
+						if err != nil {
+							return "?"
+						}
+						return strings.Join(strings.Fields(u), "")
+					}
+					if lit(parts[0]) != `{"op":"add","path":"/` || lit(parts[2]) != `","value":` || lit(parts[4]) != `}` {
+						okT = false
+					}
+					// (the name is the member's key, the value the JSON of the document's member under that very key)
+					if !strings.HasSuffix(parts[1], "[ι]") || !strings.HasPrefix(parts[3], "conv<string>(encoding/json.Marshal(document.FromBytes(") || !strings.HasSuffix(parts[3], "#0["+parts[1]+"])#0)") {
+						okT = false
+					}
+				}
+			})
+			c.Check("C14.T1", "other-members:add-template", okT && len(forms) == 1, pfd.Pos(), fmt.Sprintf("operation text appended per other member: %v", forms))
+		}
 		nj := 0
 		for _, cl := range callsTo(pfd, c.Fn("patch", "NewJSONPatch")) {
 			nj++
@@ -465,48 +510,7 @@ func runC14(c *Ctx) {
 	// ---- X2 the patches produced from a document are applied by the add-handlers: their decision skeletons
 	// (insert-or-replace by id within the handler's own list) are part of this check
 	c.composerSkeletons("C14.X2", c.composerHandlers())
-	// what the add / replace handlers put into the document are the patch's own key and service objects: the JSON-LD
-	// object of each entry goes into the rebuilt list as it is, through no function that could reshape it (a copying
-	// helper that turns an empty nested list into null changes what comes back from document -> patches -> document)
-	{
-		n := 0
-		var bad []string
-		for _, f := range c.Funcs {
-			if pkgPathOf(f) != modPkg+pComposer {
-				continue
-			}
-			forEachInstr(f, func(in ssa.Instruction) {
-				cl, ok := in.(*ssa.Call)
-				if !ok || cl.Call.StaticCallee() == nil || cl.Call.StaticCallee().Name() != "JSONLdObject" || !strings.HasSuffix(pkgPathOf(cl.Call.StaticCallee()), "/document") {
-					return
-				}
-				if rt := typeShort(cl.Call.Args[0].Type()); rt != "document.PublicKey" && rt != "document.Service" {
-					return
-				}
-				n++
-				var follow func(v ssa.Value, d int)
-				follow = func(v ssa.Value, d int) {
-					if d > 3 || v.Referrers() == nil {
-						return
-					}
-					for _, r := range *v.Referrers() {
-						switch y := r.(type) {
-						case *ssa.MakeInterface:
-							follow(y, d+1)
-						case *ssa.ChangeType:
-							follow(y, d+1)
-						case *ssa.Call:
-							if g := y.Call.StaticCallee(); g != nil && inModule(g) {
-								bad = append(bad, fmt.Sprintf("%s at %s: the entry's object is handed to %s before it is stored", short(f.String()), c.pos(y.Pos()), short(g.String())))
-							}
-						}
-					}
-				}
-				follow(cl, 0)
-			})
-		}
-		c.Check("C14.X2", "entries-stored-as-they-are", n >= 2 && len(bad) == 0, 0, fmt.Sprintf("%d key / service objects taken from patch entries in the composer; none passes through a module function on its way into the document", n), bad...)
-	}
+	c.entriesStoredRule("C14.X2")
 	c.Min("C14.X2", 13)
 	// ---- K2 one decoder: a patch built by a constructor, the same patch parsed back from its bytes, and the document it
 	// is applied to must agree on how JSON values are represented (numbers as float64, objects as maps): every decode in
@@ -1008,6 +1012,11 @@ func (c *Ctx) composerSkeletons(rule string, handlers map[string]*ssa.Function) 
 						kind = "append(" + cls(x.Call.Args[1]) + "-element)"
 					} else if g := x.Call.StaticCallee(); g != nil && inModule(g) && g.Signature.Results().Len() == 0 && len(x.Call.Args) == 2 && c.replacesByID(g) {
 						kind = "update-in-place(" + cls(x.Call.Args[1]) + "-element)"
+					} else if g != nil && inModule(g) && len(x.Call.Args) == 2 && c.replacesByIDReporting(g) {
+						// replace-by-id that reports whether it found the id: the slots are overwritten exactly when the id is
+						// among those of the list it searches
+						out = append(out, fmt.Sprintf("loop over %s: update-in-place(%s-element) if-member of set built from %s", loopOver, cls(x.Call.Args[1]), cls(earlierPrefix(x.Call.Args[0]))))
+						return
 					}
 				case *ssa.Store:
 					// the replace-by-id search written in place: list[i] = element under ID(list[i]) == ID(element)
@@ -1054,6 +1063,8 @@ func (c *Ctx) composerSkeletons(rule string, handlers map[string]*ssa.Function) 
 								set = y.Call.Args[si]
 							} else if isM, _ := c.isMembershipFn(g); isM {
 								set, _ = memberArgs(y)
+							} else if inModule(g) && c.replacesByIDReporting(g) {
+								set = earlierPrefix(y.Call.Args[0])
 							}
 						}
 					}
@@ -1247,6 +1258,8 @@ func (c *Ctx) composerSkeletons(rule string, handlers map[string]*ssa.Function) 
 			case *ssa.Call:
 				if g := x.Call.StaticCallee(); g != nil && inModule(g) && g.Signature.Results().Len() == 0 && len(x.Call.Args) == 2 && c.replacesByID(g) {
 					n++
+				} else if g != nil && inModule(g) && len(x.Call.Args) == 2 && c.replacesByIDReporting(g) {
+					n++
 				}
 			case *ssa.Store:
 				if _, _, ok := c.replaceByIDStore(x); ok && (ascendingFromZero(x.Addr) || c.descendingToZero(x.Addr)) {
@@ -1319,6 +1332,100 @@ func (c *Ctx) replacesByID(g *ssa.Function) bool {
 		}
 	})
 	return n == 1 && good == 1
+}
+
+// replacesByIDReporting: helper g(list, element) bool that replaces by id like replacesByID and answers whether it
+// overwrote a slot: its result starts false (outside every loop), becomes true exactly where the store is made, and is
+// otherwise carried along.
+func (c *Ctx) replacesByIDReporting(g *ssa.Function) bool {
+	if g.Blocks == nil || len(g.Params) != 2 || !boolResult(g) || !c.replacesByID(g) {
+		return false
+	}
+	var store *ssa.Store
+	forEachInstr(g, func(in ssa.Instruction) {
+		if st, ok := in.(*ssa.Store); ok {
+			if _, isIA := st.Addr.(*ssa.IndexAddr); isIA {
+				store = st
+			}
+		}
+	})
+	if store == nil {
+		return false
+	}
+	inLoop := map[*ssa.BasicBlock]bool{}
+	for _, l := range naturalLoops(g) {
+		for b := range l.blocks {
+			inLoop[b] = true
+		}
+	}
+	ok := true
+	trues := 0
+	seen := map[ssa.Value]bool{}
+	var leaf func(v ssa.Value, from *ssa.BasicBlock)
+	leaf = func(v ssa.Value, from *ssa.BasicBlock) {
+		afterStore := store.Block().Dominates(from)
+		switch x := v.(type) {
+		case *ssa.Const:
+			switch c.Path(x, nil) {
+			case "true":
+				ok = ok && afterStore
+				trues++
+			case "false":
+				ok = ok && !inLoop[from] && !afterStore
+			default:
+				ok = false
+			}
+		case *ssa.Phi:
+			// (the value carried along; where the store was just made it has to be the constant true)
+			ok = ok && !afterStore
+			if seen[x] {
+				return
+			}
+			seen[x] = true
+			for i, e := range x.Edges {
+				leaf(e, x.Block().Preds[i])
+			}
+		default:
+			ok = false
+		}
+	}
+	n := 0
+	for _, r := range returnsOf(g) {
+		if len(r.Results) != 1 {
+			return false
+		}
+		n++
+		leaf(r.Results[0], r.Block())
+	}
+	return ok && n > 0 && trues > 0
+}
+
+// earlierPrefix: list[:len(first)] where first is what the growing list held before the loop — as a set of ids it is
+// that earlier list (the list only grows at its end, and a replace-by-id leaves the ids where they are).
+func earlierPrefix(v ssa.Value) ssa.Value {
+	sl, ok := v.(*ssa.Slice)
+	if !ok || sl.Low != nil || sl.High == nil || sl.Max != nil {
+		return v
+	}
+	ln, ok := sl.High.(*ssa.Call)
+	if !ok {
+		return v
+	}
+	if bi, isB := ln.Call.Value.(*ssa.Builtin); !isB || bi.Name() != "len" {
+		return v
+	}
+	first := ln.Call.Args[0]
+	if sl.X == first {
+		return first
+	}
+	if phi, isPhi := sl.X.(*ssa.Phi); isPhi {
+		for _, e := range phi.Edges {
+			if e == first {
+				return first
+			}
+		}
+	}
+	return v
 }
 
 // descendingToZero: the index of the element address runs from len(list)-1 down to 0 inclusive:
@@ -1682,7 +1789,14 @@ func (c *Ctx) jsonPatchFoldRule(rule string) {
 					cs := c.stringConstsDeep(g, 3)
 					if cs["copy"] && cs["from"] && cs["path"] && !cs["add"] && !cs["replace"] && !cs["test"] && !cs["value"] {
 						if !allowed[short(g.String())+"("] {
-							c.copyGuardRule(rule, g)
+							c.copyGuardRule(rule, g, nil)
+							c.tokenUnescapeRule(rule)
+						}
+						allowed[short(g.String())+"("] = true
+					} else if c.copyGuardOnMembers(cl, nil) {
+						// the guard handed the two pointers themselves (the caller reads "from" and "path" of the operation)
+						if !allowed[short(g.String())+"("] {
+							c.copyGuardRule(rule, g, c.calleeEnv(&cl.Call, g, nil))
 							c.tokenUnescapeRule(rule)
 						}
 						allowed[short(g.String())+"("] = true
@@ -1704,6 +1818,11 @@ func (c *Ctx) jsonPatchFoldRule(rule string) {
 		}
 		c.Check(rule, "json-patch:no-refusal-of-its-own", len(extra) == 0, fn.Pos(), "the applying function refuses only what the library refuses, or a copy of a value into itself", extra...)
 	}
+	// … and the copy guard tells "the same element" the way the library does: index tokens read with the library's own
+	// number parser, every Apply call one operation wide and behind the guard (C19.G)
+	// (and no handler of the composer compares two JSON values with ==, which panics on two lists or two objects: C19.H)
+	c.only(runC19, "C19.G", "C19.H::versions/1_0/doccomposer.")
+	c.Min("C19.G", 2)
 	c.Check(rule, "json-patch:operations-threaded-through-the-library", ok, site.Pos(), "RFC 6902 operations are a left fold of the library's Apply over the document bytes "+why)
 }
 
@@ -1728,7 +1847,7 @@ func (c *Ctx) isParamOrConv(v ssa.Value) bool {
 // the comparison of the two token counts lets the operation through exactly when from has at least as many tokens as
 // path (decided on the three orderings of the two counts) — a copy onto the same location, or between siblings of the
 // same depth, is an RFC 6902 operation the library applies.
-func (c *Ctx) copyGuardRule(rule string, g *ssa.Function) {
+func (c *Ctx) copyGuardRule(rule string, g *ssa.Function, genv Env) {
 	c.Analysed(g)
 	side := func(p string) string {
 		if !strings.HasPrefix(p, "len(") {
@@ -1756,7 +1875,7 @@ func (c *Ctx) copyGuardRule(rule string, g *ssa.Function) {
 		env    Env
 		accept func(b *ssa.BasicBlock) bool
 	}
-	hosts := []hostT{{g, nil, acceptNow}}
+	hosts := []hostT{{g, genv, acceptNow}}
 	forEachInstr(g, func(in ssa.Instruction) {
 		cl, ok := in.(*ssa.Call)
 		if !ok || !isBoolType(cl.Type()) || cl.Referrers() == nil {
@@ -1776,7 +1895,7 @@ func (c *Ctx) copyGuardRule(rule string, g *ssa.Function) {
 				continue
 			}
 			letVal := fmt.Sprint(aT)
-			hosts = append(hosts, hostT{h, c.calleeEnv(&cl.Call, h, nil), func(b *ssa.BasicBlock) bool {
+			hosts = append(hosts, hostT{h, c.calleeEnv(&cl.Call, h, genv), func(b *ssa.BasicBlock) bool {
 				r, ok := b.Instrs[len(b.Instrs)-1].(*ssa.Return)
 				return ok && len(r.Results) == 1 && c.Path(r.Results[0], nil) == letVal
 			}})
@@ -1845,6 +1964,73 @@ func (c *Ctx) copyGuardRule(rule string, g *ssa.Function) {
 	if n == 0 {
 		c.Check(rule, "copy-guard:token-count-test", false, g.Pos(), "no comparison of the token counts of \"from\" and \"path\" in the copy guard: shape not understood")
 	}
+}
+
+// entriesStoredRule (C14.X2; also run by C10: "the handlers install the patch's entries").
+func (c *Ctx) entriesStoredRule(rule string) {
+	// what the add / replace handlers put into the document are the patch's own key and service objects: the JSON-LD
+	// object of each entry goes into the rebuilt list as it is, through no function that could reshape it (a copying
+	// helper that turns an empty nested list into null changes what comes back from document -> patches -> document)
+	{
+		n := 0
+		var bad []string
+		for _, f := range c.Funcs {
+			if pkgPathOf(f) != modPkg+pComposer {
+				continue
+			}
+			forEachInstr(f, func(in ssa.Instruction) {
+				cl, ok := in.(*ssa.Call)
+				if !ok || cl.Call.StaticCallee() == nil || cl.Call.StaticCallee().Name() != "JSONLdObject" || !strings.HasSuffix(pkgPathOf(cl.Call.StaticCallee()), "/document") {
+					return
+				}
+				if rt := typeShort(cl.Call.Args[0].Type()); rt != "document.PublicKey" && rt != "document.Service" {
+					return
+				}
+				n++
+				var follow func(v ssa.Value, d int)
+				follow = func(v ssa.Value, d int) {
+					if d > 3 || v.Referrers() == nil {
+						return
+					}
+					for _, r := range *v.Referrers() {
+						switch y := r.(type) {
+						case *ssa.MakeInterface:
+							follow(y, d+1)
+						case *ssa.ChangeType:
+							follow(y, d+1)
+						case *ssa.Call:
+							if g := y.Call.StaticCallee(); g != nil && inModule(g) {
+								bad = append(bad, fmt.Sprintf("%s at %s: the entry's object is handed to %s before it is stored", short(f.String()), c.pos(y.Pos()), short(g.String())))
+							}
+						}
+					}
+				}
+				follow(cl, 0)
+			})
+		}
+		c.Check(rule, "entries-stored-as-they-are", n >= 2 && len(bad) == 0, 0, fmt.Sprintf("%d key / service objects taken from patch entries in the composer; none passes through a module function on its way into the document", n), bad...)
+	}
+}
+
+// copyGuardOnMembers: the call hands a module function (returning an error) the "from" member of an operation as one
+// argument and its "path" member as another — the copy-into-itself check written over the two pointers.
+func (c *Ctx) copyGuardOnMembers(call *ssa.Call, env Env) bool {
+	g := call.Call.StaticCallee()
+	if g == nil || !inModule(g) || !returnsError(g) || g.Blocks == nil {
+		return false
+	}
+	from, path := 0, 0
+	for _, a := range call.Call.Args {
+		p := c.Path(a, env)
+		f, t := strings.Contains(p, `"from"`), strings.Contains(p, `"path"`)
+		if f && !t {
+			from++
+		}
+		if t && !f {
+			path++
+		}
+	}
+	return from == 1 && path == 1
 }
 
 // dynTypes: the dynamic types an interface value may carry, followed through conversions to interface, φ and the
@@ -2529,28 +2715,61 @@ func (c *Ctx) tokenUnescapeRule(rule string) {
 		return nil, v
 	}
 	n := 0
+	// where the comparison sits: sameToken itself, or a helper it hands its two tokens to ("same member name?")
+	type hostT struct {
+		fn   *ssa.Function
+		penv map[ssa.Value]ssa.Value
+	}
+	hosts := []hostT{{st, nil}}
 	forEachInstr(st, func(in ssa.Instruction) {
-		bo, ok := in.(*ssa.BinOp)
-		if !ok || (bo.Op != token.EQL && bo.Op != token.NEQ) || !isStringType(bo.X.Type()) {
+		cl, ok := in.(*ssa.Call)
+		if !ok {
 			return
 		}
-		sx, rx := steps(bo.X, nil, 0)
-		sy, ry := steps(bo.Y, nil, 0)
-		px, isPX := rx.(*ssa.Parameter)
-		py, isPY := ry.(*ssa.Parameter)
-		if !isPX || !isPY || px == py || px.Parent() != st || py.Parent() != st {
+		h := cl.Call.StaticCallee()
+		if h == nil || !inModule(h) || h.Blocks == nil || pkgPathOf(h) != pkgPathOf(st) || h.Object() == nil || h.Object().Exported() || len(h.Params) != len(cl.Call.Args) {
 			return
 		}
-		n++
-		good := func(s []string) bool {
-			switch strings.Join(s, " ; ") {
-			case `replacer{"~0"->"~","~1"->"/"}`, `"~1"->"/" ; "~0"->"~"`:
-				return true
+		pe := map[ssa.Value]ssa.Value{}
+		for i, a := range cl.Call.Args {
+			if _, isP := a.(*ssa.Parameter); !isP {
+				return
 			}
-			return false
+			pe[h.Params[i]] = a
 		}
-		c.Check(rule, "copy-guard:token-unescape", good(sx) && good(sy), bo.Pos(), fmt.Sprintf("the two reference tokens are compared after RFC 6901 unescaping, \"~1\" before \"~0\" or both in one pass: %v / %v", sx, sy))
+		hosts = append(hosts, hostT{h, pe})
 	})
+	for _, ht := range hosts {
+		ht := ht
+		forEachInstr(ht.fn, func(in ssa.Instruction) {
+			bo, ok := in.(*ssa.BinOp)
+			if !ok || (bo.Op != token.EQL && bo.Op != token.NEQ) || !isStringType(bo.X.Type()) {
+				return
+			}
+			sx, rx := steps(bo.X, nil, 0)
+			sy, ry := steps(bo.Y, nil, 0)
+			if a, ok := ht.penv[rx]; ok {
+				rx = a
+			}
+			if a, ok := ht.penv[ry]; ok {
+				ry = a
+			}
+			px, isPX := rx.(*ssa.Parameter)
+			py, isPY := ry.(*ssa.Parameter)
+			if !isPX || !isPY || px == py || px.Parent() != st || py.Parent() != st {
+				return
+			}
+			n++
+			good := func(s []string) bool {
+				switch strings.Join(s, " ; ") {
+				case `replacer{"~0"->"~","~1"->"/"}`, `"~1"->"/" ; "~0"->"~"`:
+					return true
+				}
+				return false
+			}
+			c.Check(rule, "copy-guard:token-unescape", good(sx) && good(sy), bo.Pos(), fmt.Sprintf("the two reference tokens are compared after RFC 6901 unescaping, \"~1\" before \"~0\" or both in one pass: %v / %v", sx, sy))
+		})
+	}
 	if n == 0 {
 		c.Check(rule, "copy-guard:token-unescape", false, st.Pos(), "no comparison of the two reference tokens as texts found in sameToken: shape not understood")
 	}
